@@ -156,3 +156,47 @@ pub fn extended_encoding(rng: &mut Rng, b: &mut Built) -> Vec<String> {
     }
     log
 }
+
+/// Cut points of a built file: offsets at which a structure (header table, section body, segment) starts and which no
+/// other structure straddles. `relocate` moves everything from such a point on up by `hole` bytes (every file offset
+/// field behind the point is adjusted); the bytes themselves stay in `b.bytes` (callers splice the hole in).
+pub fn cut_points(b: &Built) -> Vec<u64> {
+    let enc = b.enc;
+    let get = |name: &str| b.field(name).and_then(|f| enc.get(&b.bytes, f.off, f.w));
+    let ehsize: u64 = if enc.c64 { 64 } else { 52 };
+    let mut ranges: Vec<(u64, u64)> = vec![(0, ehsize)];
+    if b.shoff != 0 {
+        ranges.push((b.shoff, b.shoff + (b.shnum * crate::codec::size_of(crate::codec::St::Shdr, enc.c64)) as u64));
+    }
+    if b.phoff != 0 {
+        ranges.push((b.phoff, b.phoff + (b.phnum * crate::codec::size_of(crate::codec::St::Phdr, enc.c64)) as u64));
+    }
+    for i in 1..b.shnum {
+        if let (Some(o), Some(z), Some(t)) = (get(&format!("shdr[{i}].sh_offset")), get(&format!("shdr[{i}].sh_size")), get(&format!("shdr[{i}].sh_type"))) {
+            if t != crate::codec::k::SHT_NOBITS as u64 && t != 0 {
+                ranges.push((o, o.saturating_add(z)));
+            }
+        }
+    }
+    for i in 0..b.phnum {
+        if let (Some(o), Some(z)) = (get(&format!("phdr[{i}].p_offset")), get(&format!("phdr[{i}].p_filesz"))) {
+            ranges.push((o, o.saturating_add(z)));
+        }
+    }
+    let mut cands: Vec<u64> = ranges.iter().map(|x| x.0).filter(|s| *s >= ehsize && *s <= b.bytes.len() as u64).collect();
+    cands.sort();
+    cands.dedup();
+    cands.retain(|at| !ranges.iter().any(|(s, e)| s < at && at < e));
+    cands
+}
+
+pub fn relocate(b: &mut Built, at: u64, hole: u64) {
+    let names: Vec<String> = b.fields.iter().map(|f| f.name.clone()).filter(|n| n == "ehdr.e_shoff" || n == "ehdr.e_phoff" || n.ends_with(".sh_offset") || n.ends_with(".p_offset")).collect();
+    for n in names {
+        let f = b.field(&n).cloned().unwrap();
+        let v = b.enc.get(&b.bytes, f.off, f.w).unwrap_or(0);
+        if v >= at && v != 0 {
+            b.poke(&n, v + hole);
+        }
+    }
+}
